@@ -51,6 +51,13 @@ impl DelayTap {
 impl Tap for DelayTap {
     fn io(&self, ev: &IoEvent<'_>) -> Verdict {
         let (kind, id, _loc) = tap::classify(ev.path);
+        if kind == "blob" && ev.op == IoOp::Write && ev.off == 0 {
+            let d = self.delays.lock().unwrap().remove(&(1000 + id));
+            if let Some(ms) = d {
+                self.log(json!({"ev": "delay", "blob": id, "ms": ms, "t": self.ms(), "seq": ev.seq, "what": "blob header"}));
+                std::thread::sleep(Duration::from_millis(ms));
+            }
+        }
         if kind == "index" && ev.op == IoOp::Write {
             let d = self.delays.lock().unwrap().remove(&id);
             if let Some(ms) = d {
@@ -154,6 +161,38 @@ fn main() {
                             "msgs": pearl::verif::PROBE.msgs.load(std::sync::atomic::Ordering::SeqCst),
                             "dump_tasks": pearl::verif::PROBE.dump_tasks.load(std::sync::atomic::Ordering::SeqCst)});
         }
+        if scenario == "late-install" {
+            // C03 under a schedule: the worker prepares the next blob (id n) for force_update_active_blob before it
+            // takes the storage lock; meanwhile a client, finding no active blob, creates and uses blob n + 1; then the
+            // worker installs n.  Two records of one key with the same timestamp, the later one in the blob with the
+            // smaller id: the answer before the close must be the answer after the reopen.
+            drop(st);
+            let _ = std::fs::remove_dir_all(&d2);
+            std::fs::create_dir_all(&d2).map_err(|e| e.to_string())?;
+            let build = |d: &std::path::Path| Builder::new().work_dir(d).blob_file_name_prefix("vb").max_blob_size(1 << 40).max_data_in_blob(1 << 31).allow_duplicates().build();
+            let mut s2: Storage<ArrayKey<N>> = build(&d2).map_err(|e| format!("{e:#}"))?;
+            s2.init().await.map_err(|e| format!("init: {e:#}"))?;
+            put(&s2, 9).await?;
+            t2.delays.lock().unwrap().insert(1000 + 1, 700);           // the header write of blob 1 is slow
+            s2.force_update_active_blob(|_| true).await;              // the worker starts preparing blob 1
+            tokio::time::sleep(Duration::from_millis(150)).await;
+            s2.try_close_active_blob().await.map_err(|e| format!("close: {e:#}"))?;
+            s2.write(&key(5), Bytes::from(drive::payload(501, 30)), BlobRecordTimestamp::new(6)).await.map_err(|e| format!("write: {e:#}"))?;   // creates blob 2
+            tokio::time::sleep(Duration::from_millis(1200)).await;    // the worker installs blob 1
+            wait_quiescent(true, Duration::from_secs(30)).await?;
+            s2.write(&key(5), Bytes::from(drive::payload(502, 30)), BlobRecordTimestamp::new(6)).await.map_err(|e| format!("write: {e:#}"))?;   // into the active blob
+            let rd = |r: anyhow::Result<pearl::ReadResult<Bytes>>| match r { Ok(pearl::ReadResult::Found(b)) => if b[..] == drive::payload(502, 30)[..] { "second write".to_string() } else if b[..] == drive::payload(501, 30)[..] { "first write".to_string() } else { "other bytes".to_string() }, Ok(_) => "not found".into(), Err(e) => format!("err {e:#}") };
+            let before = rd(s2.read(&key(5)).await);
+            let files_before: Vec<u64> = drive::list_files(&d2).into_iter().filter(|f| !f.1).map(|f| f.0).collect();
+            s2.close().await.map_err(|e| format!("close: {e:#}"))?;
+            let mut s3: Storage<ArrayKey<N>> = build(&d2).map_err(|e| format!("{e:#}"))?;
+            s3.init().await.map_err(|e| format!("init: {e:#}"))?;
+            let after = rd(s3.read(&key(5)).await);
+            let close_ok = s3.close().await.is_ok();
+            let ev = t2.events.lock().unwrap().clone();
+            let order: Vec<Value> = ev.iter().filter(|e| matches!(e["ev"].as_str(), Some("active_set") | Some("active_replaced") | Some("active_init") | Some("active_closed"))).map(|e| json!([e["ev"], e["blob"]])).collect();
+            return Ok(json!({"dumped_after_idle": before == after, "close_ok": close_ok, "detail": {"before": before, "after": after, "blob_files": files_before, "activations": order}}));
+        }
         if scenario == "channel-full" {
             // the schedule of PearlConc's deadlock (SendUnderLock = TRUE): the channel to the worker is full of
             // requests that cannot apply while writers overflow the active blob and ask for a rotation.
@@ -219,7 +258,9 @@ fn main() {
     match res {
         Ok(v) => {
             if v["dumped_after_idle"] != true || v["close_ok"] != true {
-                let (kind, expected) = if scenario == "channel-full" {
+                let (kind, expected) = if scenario == "late-install" {
+                    ("restart_changes_answer", "the answer to read(key) after close and reopen is the answer before the close")
+                } else if scenario == "channel-full" {
                     ("maintenance_stuck", "every client finishes, the overflowed active blob is switched and close returns")
                 } else {
                     ("deferred_dump_never_ran", "the index of the closed blob is dumped again without further client action")
